@@ -67,6 +67,9 @@ RULES = [
      "R4: call site of the renamed conversion operator (String::fromHex)"),
     ("src/String.cpp", "literal", "    char* out = (char*)result;\n", "    char* out = result.nvMutable();\n", 1,
      "R4: call site of the renamed conversion operator (String::fromBase64)"),
+    ("include/nstd/Array.hpp", "literal", "  ~Array()\n  {\n    if(_begin.item)", "  ~Array() { nvDestroy(); }\n  void nvDestroy()\n  {\n    if(_begin.item)", 1,
+     "R12: goto-cc cannot use the class template parameter inside a destructor of the template (\"template parameter without instance\"); "
+     "the destructor body is moved verbatim into a member function that the destructor calls"),
 ]
 
 
